@@ -18,10 +18,14 @@ EXTENDS Integers, Sequences, FiniteSets, TLC, Json
 CONSTANTS TraceFile
 Trace == ndJsonDeserialize(TraceFile)
 
-VARIABLES l, dead, drift, nbeh, nbad, skip, done
-vars == <<l, dead, drift, nbeh, nbad, skip, done>>
+\* ver: count of file versions seen (the driver's own stat of the file is used only to DETECT a change,
+\* never compared with the library's tag: a different tag format is not a violation);
+\* lastTag: the stat tag after the previous event; readVer: editor -> version current when it last read
+VARIABLES l, dead, drift, nbeh, nbad, skip, done, ver, lastTag, readVer
+vars == <<l, dead, drift, nbeh, nbad, skip, done, ver, lastTag, readVer>>
 
 Init == l = 1 /\ dead = {} /\ drift = 0 /\ nbeh = 0 /\ nbad = 0 /\ skip = FALSE /\ done = FALSE
+        /\ ver = 0 /\ lastTag = "" /\ readVer = <<>>
 Ev == Trace[l]
 
 SetOf(sq) == {sq[i] : i \in 1..Len(sq)}
@@ -40,7 +44,15 @@ E1(e) == IF SetOf(e.after.hon) # SetOf(e.after.disk) THEN "C16_E1_honoured_set_d
 E2(d, e) == IF d \cap (Ids(e.after.hon) \cup Ids(e.after.disk)) # {} THEN "C16_E2_revoked_token_is_back" ELSE "ok"
 Parses(e) == IF e.after.parses = 0 THEN "C16_E4_file_does_not_parse_completely" ELSE "ok"
 
+\* version bookkeeping for an "op" event: the version before the call (an unseen change since the
+\* previous event counts), and after it
+VerBefore(e) == IF e.before.tag # lastTag THEN ver + 1 ELSE ver
+VerAfter(e) == IF e.after.tag # e.before.tag THEN VerBefore(e) + 1 ELSE VerBefore(e)
+Track(e) == ver' = VerAfter(e) /\ lastTag' = e.after.tag
+RV(ed) == IF ed \in DOMAIN readVer THEN readVer[ed] ELSE -1
+
 TNew == /\ Ev.ev = "New" /\ dead' = {} /\ nbeh' = nbeh + 1 /\ skip' = FALSE /\ UNCHANGED <<drift, nbad>>
+        /\ ver' = 0 /\ lastTag' = "" /\ readVer' = <<>>
 
 TWrite ==
   /\ Ev.ev = "op" /\ Ev.op \in {"create", "update", "delete"}
@@ -50,7 +62,7 @@ TWrite ==
          ok == e.err = ""
          exists == e.t \in Ids(e.before.disk)
          e3 == IF ok /\ e.op = "create" /\ exists THEN "C16_E3_creation_overwrote_existing_token"
-               ELSE IF ok /\ e.op # "create" /\ exists /\ e.used # e.before.tag THEN "C16_E3_conditional_write_succeeded_with_stale_tag"
+               ELSE IF ok /\ e.op # "create" /\ exists /\ RV(e.e) # VerBefore(e) THEN "C16_E3_conditional_write_succeeded_with_stale_tag"
                ELSE IF ok /\ A # Intended(IF e.op = "delete" THEN "delete" ELSE "put", B, e.t, e.v)
                     THEN "C16_E3_acknowledged_write_not_in_file"
                ELSE IF ~ok /\ (A # B \/ e.after.tag # e.before.tag) THEN "C16_E3_failed_write_changed_the_file"
@@ -59,12 +71,15 @@ TWrite ==
                ELSE IF ok THEN dead \ {e.t} ELSE dead
          \* Layer I: Stores.tla -- create of an absent token appends; create of an existing one is a
          \* conditional write with the empty tag; update of an absent token with a tag is a mismatch
-         pred == IF e.op = "delete" THEN (IF ~exists THEN "notexist" ELSE IF e.used = e.before.tag THEN "" ELSE "mismatch")
-                 ELSE IF exists THEN (IF e.used = e.before.tag THEN "" ELSE "mismatch")
+         cur == RV(e.e) = VerBefore(e)
+         pred == IF e.op = "delete" THEN (IF ~exists THEN "notexist" ELSE IF cur THEN "" ELSE "mismatch")
+                 ELSE IF e.op = "create" THEN (IF exists THEN "mismatch" ELSE "")
+                 ELSE IF exists THEN (IF cur THEN "" ELSE "mismatch")
                  ELSE (IF e.used = "" THEN "" ELSE "mismatch")
      IN /\ dead' = d1
         /\ Verdict(First(<<Parses(e), e3, E1(e), E2(d1, e)>>))
         /\ NoteDrift(pred = e.err)
+        /\ Track(e) /\ UNCHANGED readVer
   /\ UNCHANGED nbeh
 
 TExpire ==
@@ -78,16 +93,20 @@ TExpire ==
         /\ Verdict(First(<<Parses(e), E1(e), E2(d1, e),
                            IF ~(A \subseteq B) THEN "C16_E2_sweep_invented_or_changed_tokens" ELSE "ok">>))
         /\ NoteDrift(e.err = "" /\ A = {x \in B : x[2] # 2})
+        /\ Track(e) /\ UNCHANGED readVer
   /\ UNCHANGED nbeh
 
 TRead == /\ Ev.ev = "op" /\ Ev.op \in {"read", "restart"}
          /\ Verdict(First(<<Parses(Ev), E1(Ev), E2(dead, Ev)>>))
-         /\ NoteDrift(Ev.op = "restart" \/ Ev.tag = Ev.before.tag)
+         /\ NoteDrift(TRUE)
+         /\ Track(Ev)
+         /\ readVer' = IF Ev.op = "read" THEN [x \in DOMAIN readVer \cup {Ev.e} |-> IF x = Ev.e THEN VerBefore(Ev) ELSE readVer[x]]
+                        ELSE readVer
          /\ UNCHANGED <<dead, nbeh>>
 
 TExternal == /\ Ev.ev = "op" /\ Ev.op = "external"
              /\ dead' = dead \ Ids(Ev.after.disk)
-             /\ Verdict(E1(Ev)) /\ NoteDrift(TRUE) /\ UNCHANGED nbeh
+             /\ Verdict(E1(Ev)) /\ NoteDrift(TRUE) /\ Track(Ev) /\ UNCHANGED <<nbeh, readVer>>
 
 TCrash ==
   /\ Ev.ev = "op" /\ Ev.op = "crash"
@@ -102,19 +121,20 @@ TCrash ==
                            IF A # B /\ A # New THEN "C16_E4_file_is_neither_old_nor_new_set_after_crash" ELSE "ok",
                            E1(e), E2(d1, e)>>))
         /\ NoteDrift(TRUE)
+        /\ Track(e) /\ UNCHANGED readVer
   /\ UNCHANGED nbeh
 
 TPar == /\ Ev.ev = "par"
         /\ Verdict(IF Ev.acks # Ev.final THEN "C16_E3_concurrent_editors_lost_an_acknowledged_update" ELSE "ok")
-        /\ UNCHANGED <<dead, drift, nbeh>>
+        /\ UNCHANGED <<dead, drift, nbeh, ver, lastTag, readVer>>
 
-TSkip == skip /\ Ev.ev # "New" /\ UNCHANGED <<dead, drift, nbeh, nbad, skip>>
+TSkip == skip /\ Ev.ev # "New" /\ UNCHANGED <<dead, drift, nbeh, nbad, skip, ver, lastTag, readVer>>
 Step == /\ l <= Len(Trace)
         /\ (TNew \/ TSkip \/ (~skip /\ (TWrite \/ TExpire \/ TRead \/ TExternal \/ TCrash \/ TPar)))
         /\ l' = l + 1 /\ UNCHANGED done
 Finish == /\ l = Len(Trace) + 1 /\ ~done /\ done' = TRUE
           /\ PrintT(<<"TRACE-DONE", l - 1, nbeh, drift, nbad>>)
-          /\ UNCHANGED <<l, dead, drift, nbeh, nbad, skip>>
+          /\ UNCHANGED <<l, dead, drift, nbeh, nbad, skip, ver, lastTag, readVer>>
 Next == Step \/ Finish
 Spec == Init /\ [][Next]_vars
 =============================================================================
